@@ -59,6 +59,9 @@ def run(ck, tier, seed):
         elif r["k"] == "c":
             key = f"c:{r['form']}|{r['arg']}"
             what = f"boxed_cast<{r['form']}>({r['arg']}) gave {r['oc']} {r['got']!r}"
+        elif r["k"] == "m":
+            key = f"m:{r['member']}|{r['arg']}|{r['route']}"
+            what = f"data member accessor `{r['member']}` reached by route {r['route']} with receiver {r['arg']}: outcome {r['oc']}, value {r['got']!r}"
         elif r["k"] == "x":
             key = f"x:{r['case']}"
             what = f"case {r['case']}: overloads entered in sequence {r['seq']!r} ({r['n']} entries), outcome {r['oc']}"
@@ -75,7 +78,7 @@ def run(ck, tier, seed):
     ck.extra["transcription_drift_rows"] = drift
     if drift:
         ck.notes.append(f"{drift} recorded calls chose a different (still allowed) overload than the transcription of dispatch() predicts: the code path changed, the property did not fail")
-    ck.rule = ("every ordered pair (and singleton) of 18 unary and 12 binary signatures x 18 (8) argument kinds, arity errors, and boxed_cast of every argument "
-               "kind to 13 requested forms; distinct = (row kind, entered overload, argument kind)")
+    ck.rule = ("every ordered pair (and singleton) of 18 unary and 12 binary signatures x 18 (8) argument kinds, arity errors, boxed_cast of every argument "
+               "kind to 13 requested forms, and two data-member accessors x 12 receivers x 4 routes (call, dot, function value, bind); distinct = (row kind, entered overload, argument kind)")
     ck.assumptions += ["signature catalogue and argument kinds are those of harness/vd_dispatch.cpp; vector/map conversions and user type_conversion<> are not in it yet"]
     lib.rm(work)
